@@ -6,7 +6,7 @@
 From Coq Require Import List Bool Arith ZArith.
 From QV Require Import Base.Mat Base.Zi C03.ModelSamples C03.ModelProbs C03.ModelCollapse C03.ModelResult
      C03.ProofsSamples C03.ProofsProbs C03.ProofsProbsDM C03.ProofsCollapse C03.ProofsCollapseDM
-     C03.ProofsResult C03.ProofsCheck C03.ModelCircuit C03.ProofsCircuit.
+     C03.ProofsResult C03.ProofsCheck C03.ModelCircuit C03.ProofsCircuit C03.ModelRepeated C03.ProofsRepeated.
 Import ListNotations.
 
 (* calculate_probabilities = Born marginal sum_{x : x|qs = b} |psi_x|^2 in the requested order.
@@ -71,8 +71,9 @@ Print Assumptions register_view_ok.
 Theorem register_freq_ok :
   forall k cols f u, NoDup (keys (reg_freq k cols f)) /\
     lookup u (reg_freq k cols f) =
-    count_occ Nat.eq_dec (map (fun s => to_dec (take_cols cols (to_bin k s))) (expand f)) u.
-Proof. intros. exact (conj (nodup_reg_freq k cols f) (lookup_reg_freq k cols f u)). Qed.
+    count_occ Nat.eq_dec (map (fun s => to_dec (take_cols cols (to_bin k s))) (expand f)) u /\
+    total (reg_freq k cols f) = total f.     (* no shot is lost: every register sums to nshots *)
+Proof. intros. exact (conj (nodup_reg_freq k cols f) (conj (lookup_reg_freq k cols f u) (total_reg_freq k cols f))). Qed.
 Print Assumptions register_freq_ok.
 
 (* every view returned by a result is a function of one list of shots of that result: invariant
@@ -200,3 +201,13 @@ Example circuit_add_gate_nonvacuous :
   add_ops circ0 [AddM [0] (Some 0) false; AddM [1] (Some 1) false; AddM [2] None false; AddG [0; 1]] =
   Some (mkcirc [mkmrec [0] (inr 0) true; mkmrec [1] (inr 1) true; mkmrec [2] (inl 2) false] [2] true).
 Proof. reflexivity. Qed.
+
+(* results of shot-by-shot execution (collapsing measurements / unitary channels on state
+   vectors): every samples/frequencies view, including the pre-computed
+   _repeated_execution_frequencies and its int(key, 2) conversion, is the same data as the
+   aggregated samples *)
+Theorem repeated_execution_views_ok :
+  forall cfg (w : list Z) sh o, Forall (fun s => s < 2 ^ ck cfg) sh -> needs_shots o = true ->
+    explains cfg w sh o (rep_view cfg sh o).
+Proof. exact rep_views_explained. Qed.
+Print Assumptions repeated_execution_views_ok.
